@@ -613,6 +613,97 @@ fn family_a_specs(thorough: bool) -> Vec<Spec> {
   out
 }
 
+/// Default output entries: a single output clause with and without a name, two clauses; the default written as a literal
+/// and as an expression over the table's input; every hit policy; as a decision and as a knowledge model invoked by a
+/// decision; each table evaluated on ONE evaluator for a sequence of inputs (no rule matches / a rule matches / no rule
+/// matches with another input), so that a default computed once or at build time shows.
+/// the inputs evaluated on the same evaluator before the given one (the sequence is 3, 1, 2, 3, 0; the second 3 is never
+/// the first failure: a failure at 3 is reported at its first occurrence)
+fn history_before(m: i64) -> Vec<i64> {
+  match m {
+    3 => vec![],
+    2 => vec![3, 1],
+    _ => vec![3, 1, 2, 3],
+  }
+}
+
+fn family_defaults(run: &Run, cnt: &Cnt) -> u64 {
+  let mut tables = 0u64;
+  for policy in POLICIES {
+    for shape in ["single-unnamed", "single-named", "two-named"] {
+      for default_kind in ["literal", "expression-over-the-input"] {
+        for host in ["decision", "knowledge-model"] {
+          tables += 1;
+          cnt.tables.fetch_add(1, Ordering::Relaxed);
+          let (hp, agg) = policy.xml();
+          let def = |k: i64| if default_kind == "literal" { format!("{}", 7 + k) } else { format!("m * 100 + {}", k) };
+          let outputs = match shape {
+            "single-unnamed" => vec![dmn::TableOutput { name: None, type_ref: None, values: None, default: Some(def(1)) }],
+            "single-named" => vec![dmn::TableOutput { name: Some("o1".into()), type_ref: None, values: None, default: Some(def(1)) }],
+            _ => vec![
+              dmn::TableOutput { name: Some("o1".into()), type_ref: None, values: None, default: Some(def(1)) },
+              dmn::TableOutput { name: Some("o2".into()), type_ref: None, values: None, default: Some(def(2)) },
+            ],
+          };
+          let n_out = outputs.len();
+          let table = dmn::Table {
+            hit_policy: hp.to_string(),
+            aggregation: agg.map(|a| a.to_string()),
+            output_label: None,
+            inputs: vec![dmn::TableInput { expr: "m".into(), type_ref: None, values: None }],
+            outputs,
+            rules: vec![dmn::TableRule { inputs: vec!["1".into()], outputs: (0..n_out).map(|k| format!("{}", 50 + k)).collect() }],
+          };
+          let mut m = dmn::Model::new("https://verif/c03d", "c03d");
+          m.inputs.push(dmn::Input { name: "m".into(), type_ref: "number".into() });
+          if host == "decision" {
+            m.decisions.push(dmn::Decision { name: "D".into(), type_ref: None, requires: dmn::Requires { inputs: vec!["m".into()], ..Default::default() }, logic: Some(dmn::Expr::Table(table)) });
+          } else {
+            m.bkms.push(dmn::Bkm { name: "T".into(), type_ref: None, params: vec![("m".into(), Some("number".into()))], knowledge: vec![], logic: dmn::Expr::Table(table) });
+            m.decisions.push(dmn::Decision { name: "D".into(), type_ref: None, requires: dmn::Requires { inputs: vec!["m".into()], knowledge: vec!["T".into()], ..Default::default() }, logic: Some(dmn::Expr::lit("T(m)")) });
+          }
+          let xml = m.to_xml();
+          let me = match dmntk_model::parse(&xml).map_err(|e| e.to_string()).and_then(|d| dmntk_model_evaluator::ModelEvaluator::new(&d).map_err(|e| e.to_string())) {
+            Ok(me) => me,
+            Err(e) => {
+              run.violation(&format!("build:defaults:{}", policy.name()), &format!("generated table does not load: {}", e), json!({"engine":"c03","xml":xml}));
+              continue;
+            }
+          };
+          // aggregation over several clauses is left open (see the assumptions)
+          let aggregating = matches!(policy, Policy::Sum | Policy::Min | Policy::Max | Policy::Count);
+          if aggregating && n_out > 1 {
+            continue;
+          }
+          for mval in [3i64, 1, 2, 3, 0] {
+            cnt.evals.fetch_add(1, Ordering::Relaxed);
+            if mval == 1 {
+              // a rule matches: covered by the other families, evaluated here for the history only
+              let _ = me.evaluate_invocable("D", &ctx_of(&[("m", &In::Num(mval))]));
+              continue;
+            }
+            let dv = |k: i64| if default_kind == "literal" { 7 + k } else { mval * 100 + k };
+            let expected = if n_out == 1 { format!("{}", dv(1)) } else { format!("{{o1: {}, o2: {}}}", dv(1), dv(2)) };
+            let ctx = ctx_of(&[("m", &In::Num(mval))]);
+            let got = crate::rval::show_value_full(&me.evaluate_invocable("D", &ctx));
+            cnt.compared.fetch_add(1, Ordering::Relaxed);
+            cnt.nontrivial.fetch_add(1, Ordering::Relaxed);
+            if got != expected {
+              run.violation(
+                &format!("result:defaults:{}:{}:{}:{}", policy.name(), shape, default_kind, host),
+                &format!("hit policy {} table ({}, default output entr{} as {}, hosted by a {}), no rule matches for m = {} (after the inputs before it in 3, 1, 2, 3, 0 on the same evaluator): evaluates to {} but the default output entry gives {}", policy.name(), shape, if n_out == 1 { "y" } else { "ies" }, default_kind, host, mval, got, expected),
+                json!({"engine":"c03","xml":xml,"invocable":"D","ctx":ctx.to_string(),"expected":expected,"history_before":history_before(mval)}),
+              );
+              break;
+            }
+          }
+        }
+      }
+    }
+  }
+  tables
+}
+
 pub fn run() {
   let run = Run::new("C03");
   let thorough = run.thorough();
@@ -734,6 +825,8 @@ pub fn run() {
       }
     }
   });
+  let n_defaults = family_defaults(&run, &cnt);
+  run.set("default_output_tables", json!(n_defaults));
   if let Some(s) = b.get(b.len() / 2) {
     run.sample(json!({"family":"hit-policy","policy":s.policy.name(),"rules":s.rules.len(),"outputs":s.outputs.len(),"xml_excerpt":s.xml().chars().take(600).collect::<String>()}));
   }
@@ -771,7 +864,13 @@ pub fn replay_case(case: &serde_json::Value) -> String {
     Ok(c) => c,
     Err(e) => return format!("MACHINERY the recorded input {} does not evaluate: {}", ctx_text, e),
   };
-  let got = show_value(&me.evaluate_invocable("D", &ctx));
+  // the inputs that the same evaluator saw before the recorded one
+  if let Some(h) = case.get("history_before").and_then(|h| h.as_array()) {
+    for m in h.iter().filter_map(|m| m.as_i64()) {
+      let _ = me.evaluate_invocable("D", &ctx_of(&[("m", &In::Num(m))]));
+    }
+  }
+  let got = crate::rval::show_value_full(&me.evaluate_invocable("D", &ctx));
   if expected.is_empty() || expected == "<unspecified>" {
     format!("OBSERVED input {} gives {}", ctx_text, got)
   } else if got == expected {
